@@ -12,50 +12,49 @@ open KotoVerif.FmtOptions KotoVerif.SrcSlice
 
 /-! ## Format options: `parse (render o) = o` -/
 
-/-- The intended statement is false for the code as it is: `render_format_options` never emits the
-`representation`. Witness: the options of `{z:x}` (hex) re-render as the empty string. -/
-theorem fmtopts_roundtrip_fails :
-    ¬ (∀ o : Opts, (∃ s g, parse s g = .ok o) → ∀ g, parse (render o) g = .ok o) := by
-  intro h
-  have h1 := h { repr := some .hexLower } ⟨[120], 1, by decide⟩ 1
-  exact absurd h1 (by decide)
-
-/-- The witness, spelled out: `x` parses to hex, hex renders to nothing, nothing parses to default. -/
-theorem fmtopts_roundtrip_witness :
-    parse [120] 1 = .ok { repr := some .hexLower }
-      ∧ render { repr := some .hexLower } = []
-      ∧ parse [] 0 = .ok {} := by decide
-
-/-- `fmtopts_roundtrip_partial`: for every option set without a representation that is
-well-formed (`WF`, Model/FmtOptions.lean: widths and precisions below 2³², and a fill that `parse`
-can produce in that combination — any single character in front of an alignment, `0` in front of a
-width, a lone fill, a multi-code-point cluster not starting with a character `parse` claims) — for
-every fill character or cluster, every alignment, every width and precision — rendering and parsing
-again gives the same options. `g` is the grapheme length the segmenter reports for the rendered
-string; `GraphemeOk` says it sees a multi-code-point fill as one cluster.
-What is excluded, exactly: `representation` (lost by `render`, see `fmtopts_roundtrip_fails`). -/
-theorem fmtopts_roundtrip_partial (o : Opts) (g : Nat) (hwf : WF o) (hg : GraphemeOk o g) :
+/-- `fmtopts_roundtrip`: for every well-formed option set (`WF`, Model/FmtOptions.lean: widths and
+precisions below 2³², and a fill that `parse` can produce in that combination — any single
+character in front of an alignment, `0` in front of a width, a lone fill, a multi-code-point
+cluster not starting with a character `parse` claims) — every fill character or cluster, every
+alignment, width, precision and representation — re-rendering the options and parsing the result
+gives the same options. `g` is the grapheme length the segmenter reports for the rendered string;
+`GraphemeOk` says it sees a multi-code-point fill as one cluster.
+(Before /repo 7549768 `render_format_options` dropped the representation and only the
+representation-free part held; that was finding F-C11-2.) -/
+theorem fmtopts_roundtrip (o : Opts) (g : Nat) (hwf : WF o) (hg : GraphemeOk o g) :
     parse (render o) g = .ok o :=
   Lemmas.roundtrip o g hwf hg
 
-/-- Non-vacuity: a fill cluster of two code points, centred, width 20, precision 10. -/
-example : WF { fill := some [129782, 127997], align := .center, minWidth := some 20, precision := some 10 }
-    ∧ GraphemeOk { fill := some [129782, 127997], align := .center, minWidth := some 20, precision := some 10 } 2 := by
+/-- Non-vacuity: a fill cluster of two code points, centred, width 20, precision 10, exponent. -/
+example : WF { fill := some [129782, 127997], align := .center, minWidth := some 20, precision := some 10, repr := some .expLower }
+    ∧ GraphemeOk { fill := some [129782, 127997], align := .center, minWidth := some 20, precision := some 10, repr := some .expLower } 2 := by
   decide
 
-example : parse (render { fill := some [129782, 127997], align := .center, minWidth := some 20, precision := some 10 }) 2
-    = .ok { fill := some [129782, 127997], align := .center, minWidth := some 20, precision := some 10 } := by
+example : parse (render { fill := some [129782, 127997], align := .center, minWidth := some 20, precision := some 10, repr := some .expLower }) 2
+    = .ok { fill := some [129782, 127997], align := .center, minWidth := some 20, precision := some 10, repr := some .expLower } := by
   decide
 
-/-- Non-vacuity: zero fill `08.3`, and every alignment with the fill `x` (which is also a
-representation letter). -/
-example : WF { fill := some [48], minWidth := some 8, precision := some 3 }
-    ∧ WF { fill := some [120], align := .left, minWidth := some 4294967295 }
-    ∧ WF { align := .right } ∧ WF { precision := some 0 } ∧ WF { fill := some [95] } := by decide
+/-- Non-vacuity: `08.3b`, every alignment with the fill `x` (also a representation letter), the
+bare representations, a lone fill. -/
+example : WF { fill := some [48], minWidth := some 8, precision := some 3, repr := some .binary }
+    ∧ WF { fill := some [120], align := .left, minWidth := some 4294967295, repr := some .hexLower }
+    ∧ WF { align := .right, repr := some .debug } ∧ WF { precision := some 0 }
+    ∧ WF { repr := some .hexUpper } ∧ WF { fill := some [95] } := by decide
+
+/-- Regression for F-C11-2: the options of `{z:x}` survive re-rendering. -/
+theorem fmtopts_hex_roundtrip :
+    parse [120] 1 = .ok { repr := some .hexLower } ∧ render { repr := some .hexLower } = [120] := by
+  decide
 
 /-- The width bound in `WF` is needed: 2³² renders to a string `parse` rejects. -/
 theorem fmtopts_width_bound_needed :
     parse (render { minWidth := some 4294967296 }) 1 = .error .tooLarge := by decide
+
+/-- A lone fill cannot carry a representation (`{x:_x}` is a parse error), which is why `WF`
+excludes that combination. -/
+theorem fmtopts_lone_fill_no_repr :
+    parse (render { fill := some [95], repr := some .hexLower }) 1 = .error (.unexpected 120) := by
+  decide
 
 /-! ## `source_slice` -/
 
